@@ -1,7 +1,7 @@
 (* C15 — property theorems only. M is `run true` over the tables of the source (Model.v + Interp.v), S is
    `run false` (Spec.v + Interp.v); the theorems over the tables regenerated on every run are in
    TableProofs.v. *)
-From C15 Require Import Model Spec Interp Corr IntProofs WordProofs Proofs.
+From C15 Require Import Model Spec Interp Corr IntProofs WordProofs EnglishProofs RomanProofs Proofs.
 
 (* ======== ~D ~B ~O ~X ~nR: "render any integer in the right base with the requested width, padding, sign
    and grouping" ======== *)
@@ -60,6 +60,13 @@ Print Assumptions C15_roman_domain.
 Theorem C15_dirR_roman_is_roman : forall old z, (1 <= z <= 3999)%Z -> go_roman src_tables old (dec_text z) = std_roman old z.
 Proof. exact go_roman_is_roman. Qed.
 Print Assumptions C15_dirR_roman_is_roman.
+(* (5b) ... and for EVERY integer, not only 1..3999: the Roman branch of dirR (the sign test, "4 < len || 3 < len && '3' <
+   digits[0]", the loop over the digits) and the definition agree — the numeral inside the range, no numeral outside —
+   EXACTLY when the integer is not 0; at 0 the Go code writes the empty string (finding C15-roman-zero). Inside the
+   range by (5); outside by the length and the first character of the decimal text. *)
+Theorem C15_dirR_roman_exact : forall old z, go_roman src_tables old (dec_text z) = std_roman old z <-> z <> 0%Z.
+Proof. exact go_roman_exact. Qed.
+Print Assumptions C15_dirR_roman_exact.
 
 (* (6) English, for EVERY integer of absolute value below 10^66 (the range of the scale words), cardinal and
    ordinal: the text of the definition reads back to the integer (by induction over the groups of three digits;
@@ -76,18 +83,41 @@ Theorem C15_ordinal_last_word : forall z ws, cardinal_words z = Some ws ->
   ordinal_words z = Some (removelast ws ++ [ordinal_word (last ws [])]).
 Proof. exact ordinal_last_word. Qed.
 Print Assumptions C15_ordinal_last_word.
-(* FULL statement wanted:  forall ordinal z, english_ok ordinal (Z.abs_N z) = true ->
-     go_english src_tables ordinal (dec_text z) = std_english ordinal z
-   (the loop of dirR writes the defined text wherever no group has a tens digit 2..9 with units 0, the 10^18 group is
-   zero, |z| < 10^66 and, for ordinals, the number does not end in 0 beyond 10..19).  PROVED ONLY as a bounded sweep by
-   kernel computation: for every n below 20000 and for 858 numbers spread over all magnitudes up to 10^67 (negative
-   ones included), cardinal and ordinal, the loop writes the defined text EXACTLY when english_ok holds. Beyond that the
-   loop is compared with the definition on every run (table sweep + random numbers up to 10^69). *)
-Theorem C15_english_loop_bounded_partial :
-  (sweep false 20 1000 = true /\ sweep true 20 1000 = true) /\
-  (forallb (english_agrees_z false) spread = true /\ forallb (english_agrees_z true) spread = true).
-Proof. exact (conj english_sweep_20000 english_spread). Qed.
-Print Assumptions C15_english_loop_bounded_partial.
+(* (6b) The loop of dirR (for _, trip := range cardinalTriples, three digits of the decimal text per round, the pop of
+   the scale word of an all-zero group, the ordinal tables in the first round only) writes, for EVERY integer, the
+   text of the definition wherever english_ok holds: no group of three digits has a tens digit 2..9 with a units digit 0
+   (finding C15-english-empty-word), the group of 10^18 is zero (C15-quantillion), |z| < 10^66
+   (C15-english-beyond-vigintillion) and, for ordinals, the number is 0 or ends in 01..19 or in a digit that is not 0
+   (C15-ordinal-of-round-number). By induction over the groups of three digits of the decimal text; the words of one
+   round are compared with the definition for all 22 x 1000 (scale, group value) pairs by kernel computation — the
+   domain of a group is finite. No bound on z. *)
+Theorem C15_english_loop : forall ordinal z, english_ok ordinal (Z.abs_N z) = true ->
+  go_english src_tables ordinal (dec_text z) = std_english ordinal z.
+Proof. exact english_loop. Qed.
+Print Assumptions C15_english_loop.
+(* (6c) ... and EXACTLY there: for every integer outside english_ok the loop writes a text that is not the defined one
+   (a word the definition never writes — the empty word, "quantillion" —, a cardinal where the ordinal is wanted, or a
+   text where the definition has none). So the four clauses of english_ok are each necessary: they are the four known
+   findings about the English writer, and there is no fifth. *)
+Theorem C15_english_loop_exact : forall ordinal z,
+  go_english src_tables ordinal (dec_text z) = std_english ordinal z <-> english_ok ordinal (Z.abs_N z) = true.
+Proof. exact english_loop_exact. Qed.
+Print Assumptions C15_english_loop_exact.
+(* (6d) What the loop writes for every integer but 0 and EVERY table (no guard): "negative" if z < 0, then the words of
+   the groups of three digits of |z| from the most significant one, each group as one round of the loop writes it (GL);
+   and the fact about decimal texts it rests on: the text of n >= 1000 is the text of n / 1000 followed by three digits. *)
+Theorem C15_english_loop_words : forall T colon z, z <> 0%Z ->
+  go_english T colon (dec_text z) =
+  Some (join [sp] ((if (z <? 0)%Z then [tx "negative"] else []) ++
+                   rev (GL T (t_triples T) (if colon then t_ordone T else t_one T) (if colon then t_ordteen T else t_teen T)
+                           (triples_of (Z.abs_N z))))).
+Proof. exact go_english_words. Qed.
+Print Assumptions C15_english_loop_words.
+Theorem C15_decimal_text_by_groups : forall n, (1000 <= n)%N ->
+  dec_text (Z.of_N n) = dec_text (Z.of_N (n / 1000)) ++
+                        [digit_char (n / 100 mod 10); digit_char (n / 10 mod 10); digit_char (n mod 10)].
+Proof. exact dec_text_1000. Qed.
+Print Assumptions C15_decimal_text_by_groups.
 
 (* ======== "consume and move through the arguments as specified" — for both M and S (any b), any control record,
    and any function `rec` in the place of the recursive call ======== *)
@@ -168,8 +198,8 @@ Theorem C15_literal_run : forall n b T fuel c,
 Proof. exact literal_run. Qed.
 Print Assumptions C15_literal_run.
 
-(* (12) At the sites of the integer and the Roman writer the two readings give the same result and add no taint, for
-   every control record and parameter list: these sites never leave the guard (consequences of (1) and (5)). *)
+(* (12) At the sites of the integer, the Roman and the English writer the two readings give the same result and add no taint, for
+   every control record and parameter list: the integer and Roman (1..3999) sites never leave the guard (consequences of (1) and (5)). *)
 Theorem C15_integer_site_coincides : forall base off colon at_ ps c z, (2 <= base <= 36)%N ->
   arg_at c = Some (VInt z) -> dir_int true base off colon at_ ps c = dir_int false base off colon at_ ps c.
 Proof. exact integer_site_coincides. Qed.
@@ -178,12 +208,22 @@ Theorem C15_roman_site_coincides : forall colon c z, (1 <= z <= 3999)%Z -> arg_a
   dir_radix true src_tables colon true [] c = dir_radix false src_tables colon true [] c.
 Proof. exact roman_site_coincides. Qed.
 Print Assumptions C15_roman_site_coincides.
+(* the same for every integer but 0 (Roman) and for every integer inside english_ok (English, cardinal and ordinal):
+   consequences of (5b) and (6b); so ~R ~:R ~@R ~:@R without parameters leave the guard only at the known findings. *)
+Theorem C15_roman_site_coincides_all : forall colon c z, z <> 0%Z -> arg_at c = Some (VInt z) ->
+  dir_radix true src_tables colon true [] c = dir_radix false src_tables colon true [] c.
+Proof. exact roman_site_coincides_all. Qed.
+Print Assumptions C15_roman_site_coincides_all.
+Theorem C15_english_site_coincides : forall colon c z, english_ok colon (Z.abs_N z) = true -> arg_at c = Some (VInt z) ->
+  dir_radix true src_tables colon false [] c = dir_radix false src_tables colon false [] c.
+Proof. exact english_site_coincides. Qed.
+Print Assumptions C15_english_site_coincides.
 
 (* FULL statement wanted:  forall T fuel control args, untainted (M_run T fuel control args) = true ->
    fst (M_run T fuel control args) = fst (S_run fuel control args)   (inside the guard the model of the Go code
    renders what the definition renders). NOT proved; it is evaluated on every case of every run (code 3 of
-   Corr.check_case) and holds by construction wherever no site is consulted; (1) and (5) discharge it for the
-   integer and Roman sites. *)
+   Corr.check_case) and holds by construction wherever no site is consulted; (1), (5b) and (6b) discharge it for the
+   integer, Roman and English sites. *)
 
 (* ======== outside the guard: the known findings, and the guard is satisfiable ======== *)
 Theorem C15_known_deviations_refuted : forallb deviates deviation_witnesses = true.
